@@ -4,6 +4,7 @@ import Driver.StrCmd
 import Driver.NetCmd
 import Driver.PathsCmd
 import Driver.GuardCmd
+import Driver.AutoCmd
 open Lean PyRates.Driver
 
 def dispatch (comp : String) (j : Json) : Except String Json :=
@@ -15,6 +16,7 @@ def dispatch (comp : String) (j : Json) : Except String Json :=
   | "nettraj" => netTrajCmd j
   | "paths" => pathsCmd j
   | "guard" => guardCmd j
+  | "auto" => autoCmd j
   | _ => .error s!"unknown component {comp}"
 
 partial def loop (h : IO.FS.Stream) (out : IO.FS.Stream) : IO Unit := do
